@@ -2287,34 +2287,49 @@ check_for_reply_unlocked (DBusConnection *connection,
 static void
 connection_timeout_and_complete_all_pending_calls_unlocked (DBusConnection *connection)
 {
-   /* We can't iterate over the hash in the normal way since we'll be
-    * dropping the lock for each item. So we restart the
-    * iter each time as we drain the hash table.
-    */
-   
-   while (_dbus_hash_table_get_n_entries (connection->pending_replies) > 0)
+  /* Queue the timeout error of every pending call so that it is
+   * dispatched before the Disconnected signal.  The calls must stay in
+   * the hash: dispatching the queued error looks its call up by reply
+   * serial and completes it like any other reply (a call removed from
+   * the hash here would never be completed or notified).
+   *
+   * Removing a timeout can drop the lock, so we restart the iteration
+   * after each call we had to touch; calls already dealt with are
+   * recognised by having neither a timeout error link nor a timeout.
+   */
+  dbus_bool_t found;
+
+  do
     {
-      DBusPendingCall *pending;
       DBusHashIter iter;
-      
+
+      found = FALSE;
       _dbus_hash_iter_init (connection->pending_replies, &iter);
-      _dbus_hash_iter_next (&iter);
-       
-      pending = _dbus_hash_iter_get_value (&iter);
-      _dbus_pending_call_ref_unlocked (pending);
-       
-      _dbus_pending_call_queue_timeout_error_unlocked (pending, 
-                                                       connection);
 
-      if (_dbus_pending_call_is_timeout_added_unlocked (pending))
-          _dbus_connection_remove_timeout_unlocked (connection,
-                                                    _dbus_pending_call_get_timeout_unlocked (pending));
-      _dbus_pending_call_set_timeout_added_unlocked (pending, FALSE);       
-      _dbus_hash_iter_remove_entry (&iter);
+      while (_dbus_hash_iter_next (&iter))
+        {
+          DBusPendingCall *pending = _dbus_hash_iter_get_value (&iter);
 
-      _dbus_pending_call_unref_and_unlock (pending);
-      CONNECTION_LOCK (connection);
+          if (!_dbus_pending_call_is_timeout_added_unlocked (pending) &&
+              !_dbus_pending_call_has_timeout_error_unlocked (pending))
+            continue;
+
+          _dbus_pending_call_queue_timeout_error_unlocked (pending,
+                                                           connection);
+
+          if (_dbus_pending_call_is_timeout_added_unlocked (pending))
+            {
+              _dbus_pending_call_set_timeout_added_unlocked (pending, FALSE);
+              _dbus_connection_remove_timeout_unlocked (connection,
+                                                        _dbus_pending_call_get_timeout_unlocked (pending));
+            }
+
+          found = TRUE;
+          break;
+        }
     }
+  while (found);
+
   HAVE_LOCK_CHECK (connection);
 }
 
